@@ -19,7 +19,7 @@ Findings proved here as counter-examples: F3 (`override_order_counterexample`), 
 (`heuristic_default_counterexample`, `heuristic_off_counterexample`), F16
 (`api_setter_counterexample`), and three more seen while modelling:
 `api_alias_counterexample` (the API setter of a deprecated alias does nothing),
-`hide_parse_errors_not_negated` (`hide_parse_errors = true` turns `show_parse_errors` ON),
+F29 (`hide_parse_errors = true` turned `show_parse_errors` ON; repaired, see `hide_parse_errors_negated`),
 `same_value_flag_clobber_counterexample` (`unstable_features = true` in a file is reset by
 `apply_to`, from `--config` it sticks) and `same_value_stable_channel_counterexample`.
 -/
@@ -273,7 +273,7 @@ theorem style_edition_field_of_default :
 /-- `override_value` of a deprecated alias maps to its successor exactly when the successor has not
 been set: `merge_imports` ↦ `imports_granularity` (`true` ↦ `Crate`, `false` ↦ `Preserve`),
 `fn_args_layout` ↦ `fn_params_layout` (same value), `hide_parse_errors` ↦ `show_parse_errors`
-(same value — see `hide_parse_errors_not_negated`). -/
+(negated — see `hide_parse_errors_negated`). -/
 theorem alias_maps (c : Config) :
     (∀ b, ∃ c', overrideValue c "merge_imports" (.bool b) = some c' ∧
       (getE c' "imports_granularity").val =
@@ -284,7 +284,7 @@ theorem alias_maps (c : Config) :
         if wasSet c "fn_params_layout" then (getE c "fn_params_layout").val else .str s) ∧
     (∀ b, ∃ c', overrideValue c "hide_parse_errors" (.bool b) = some c' ∧
       (getE c' "show_parse_errors").val =
-        if wasSet c "show_parse_errors" then (getE c "show_parse_errors").val else .bool b) := by
+        if wasSet c "show_parse_errors" then (getE c "show_parse_errors").val else .bool (!b)) := by
   have t1 : checkVal "merge_imports" (.bool true) = true ∧
       checkVal "merge_imports" (.bool false) = true := by decide +kernel
   have t3 : checkVal "hide_parse_errors" (.bool true) = true ∧
@@ -306,16 +306,16 @@ theorem alias_maps (c : Config) :
     refine ⟨_, by simp only [overrideValue, hv, if_true]; rfl, ?_⟩
     rw [dispatch_hide_parse_errors, setHideParseErrors_eq, getE_setAlias]
     simp only [wasSet, getE_setVal, getE_setWasSet]
-    by_cases h : (getE c "show_parse_errors").wasSet = true <;> simp [h]
+    by_cases h : (getE c "show_parse_errors").wasSet = true <;> simp [h, negBool]
 
-/-- Finding: the alias `hide_parse_errors` is copied, not negated (config_type.rs:562):
-`--config hide_parse_errors=true` yields `show_parse_errors = true`, i.e. the errors are SHOWN;
-and `hide_parse_errors=false` hides them. -/
-theorem hide_parse_errors_not_negated :
+/-- The alias `hide_parse_errors` is negated into its successor: `--config hide_parse_errors=true`
+yields `show_parse_errors = false`.  (The pinned tree copied the value without negating it, finding
+F29, repaired by `fix: hide_parse_errors = true must turn show_parse_errors off`.) -/
+theorem hide_parse_errors_negated :
     (overrideValue (defaultWithStyleEdition .e2015) "hide_parse_errors" (.bool true)).map
-      (fun c => (getE c "show_parse_errors").val) = some (.bool true) ∧
+      (fun c => (getE c "show_parse_errors").val) = some (.bool false) ∧
     (overrideValue (defaultWithStyleEdition .e2015) "hide_parse_errors" (.bool false)).map
-      (fun c => (getE c "show_parse_errors").val) = some (.bool false) := by decide +kernel
+      (fun c => (getE c "show_parse_errors").val) = some (.bool true) := by decide +kernel
 
 /-- The same mapping for a config file (nightly channel, where the unstable aliases are accepted):
 an alias present in the file sets its successor unless the file sets the successor too. -/
@@ -335,7 +335,7 @@ theorem alias_maps_file (parsed : List (String × Val)) (seOv edOv verOv) (c : C
       (getE c "show_parse_errors").val =
         match parsed.lookup "show_parse_errors" with
         | some g => g
-        | none => v) := by
+        | none => negBool v) := by
   rw [hc0, style_edition_override_beats_file]
   exact alias_file parsed _
 
@@ -566,5 +566,275 @@ theorem override_order_max_width_first (m : Val) (l1 l2 : List (String × Val)) 
     simpa using hc
   obtain ⟨c1, c2, h1, h2, he⟩ := override_order_independent_partial l1 l2 hp hnd hmw hv _ hc0
   exact ⟨c1, c2, by simp only [applyInline, h0, h1], by simp only [applyInline, h0, h2], he⟩
+
+/-- Since the repair of F3 (the generated flag `inlineMaxWidthFirst`), the configuration that
+`apply_to` produces does not depend on the iteration order of the `HashMap` of `--config` pairs: for
+every command line `o`, every other order `l2` of its pairs (distinct keys — it is a map —, values
+accepted by `is_valid_key_val`, `max_width` allowed among them) and every starting configuration
+with a valid `use_small_heuristics`, both runs succeed and give the same effective configuration.
+This is the full-strength statement whose pre-repair failure is `override_order_counterexample`. -/
+theorem apply_to_order_independent {α : Type} (o : CliOptions α) (l2 : List (String × Val))
+    (hp : o.inlineConfig.Perm l2) (hnd : (o.inlineConfig.map (·.1)).Nodup)
+    (hv : ∀ kv ∈ o.inlineConfig, checkVal kv.1 kv.2 = true) (c : Config)
+    (hc : (Heuristics.ofVal? (getE c "use_small_heuristics").val).isSome = true) :
+    ∃ c1 c2, applyTo o c = some c1 ∧ applyTo { o with inlineConfig := l2 } c = some c2 ∧
+      Equiv c1 c2 := by
+  obtain ⟨c0, h0⟩ := applyFlagCalls_some (flagCalls o) c (flagCalls_valid o)
+  have hc0 : (Heuristics.ofVal? (getE c0 "use_small_heuristics").val).isSome = true :=
+    heurOK_applyFlagCalls _ c c0 h0 hc
+  have hf : flagCalls ({ o with inlineConfig := l2 } : CliOptions α) = flagCalls o := rfl
+  have hm := filter_max_width_eq o.inlineConfig l2 hp hnd
+  let r1 := o.inlineConfig.filter (fun kv => !(kv.1 == "max_width"))
+  let r2 := l2.filter (fun kv => !(kv.1 == "max_width"))
+  have hpr : r1.Perm r2 := hp.filter _
+  have hndr : (r1.map (·.1)).Nodup := (List.filter_sublist.map _).nodup hnd
+  have hmwr : "max_width" ∉ r1.map (·.1) := by
+    intro hmem
+    obtain ⟨kv, hkv, hk⟩ := List.mem_map.1 hmem
+    have := (List.mem_filter.1 hkv).2
+    simp [hk] at this
+  have hvr : ∀ kv ∈ r1, checkVal kv.1 kv.2 = true :=
+    fun kv hkv => hv kv (List.mem_filter.1 hkv).1
+  have e1 : applyTo o c =
+      applyInline (o.inlineConfig.filter (fun kv => kv.1 == "max_width") ++ r1) c0 := by
+    simp only [applyTo, h0, bindO, orderInline_eq, maxWidthFirst, r1]
+  have e2 : applyTo ({ o with inlineConfig := l2 } : CliOptions α) c =
+      applyInline (o.inlineConfig.filter (fun kv => kv.1 == "max_width") ++ r2) c0 := by
+    simp only [applyTo, hf, h0, bindO, orderInline_eq, maxWidthFirst, r2, hm]
+  rw [e1, e2]
+  have hall : ∀ kv ∈ o.inlineConfig.filter (fun kv => kv.1 == "max_width"), kv.1 = "max_width" := by
+    intro kv hkv
+    have := (List.mem_filter.1 hkv).2
+    simpa using this
+  have hlen : ((o.inlineConfig.filter (fun kv => kv.1 == "max_width")).map (·.1)).Nodup :=
+    (List.filter_sublist.map _).nodup hnd
+  cases hmf : o.inlineConfig.filter (fun kv => kv.1 == "max_width") with
+  | nil =>
+    simp only [List.nil_append]
+    exact override_order_independent_partial r1 r2 hpr hndr hmwr hvr c0 hc0
+  | cons a r =>
+    cases r with
+    | nil =>
+      obtain ⟨ka, m⟩ := a
+      have hka : ka = "max_width" := hall (ka, m) (by rw [hmf]; simp)
+      subst hka
+      have hmv : checkVal "max_width" m = true :=
+        hv ("max_width", m) (List.mem_filter.1 (by rw [hmf]; simp : ("max_width", m) ∈ _)).1
+      simp only [List.cons_append, List.nil_append]
+      exact override_order_max_width_first m r1 r2 hpr hndr hmwr hmv hvr c0 hc0
+    | cons b r' =>
+      exfalso
+      rw [hmf] at hlen hall
+      have ha := hall a (by simp)
+      have hb := hall b (by simp)
+      simp only [List.map_cons, List.nodup_cons, List.mem_cons, not_or] at hlen
+      exact hlen.1.1 (ha.trans hb.symm)
+
+example :
+    let o : CliOptions Nat := { inlineConfig := [("fn_call_width", .nat 110), ("max_width", .nat 120)] }
+    (o.inlineConfig.map (·.1)).Nodup ∧ (∀ kv ∈ o.inlineConfig, checkVal kv.1 kv.2 = true) ∧
+    (applyTo o (defaultWithStyleEdition .e2015)).map (fun c => natOf c "fn_call_width") = some 110 ∧
+    (applyTo { o with inlineConfig := o.inlineConfig.reverse } (defaultWithStyleEdition .e2015)).map
+      (fun c => natOf c "fn_call_width") = some 110 := by decide +kernel
+
+/-! ## `--print-config`: print, then load the printed text -/
+
+/-- The text printed by `--print-config default|current` re-parses to the same effective
+configuration — PARTIAL.  For a configuration `c` that holds exactly the options of the table (true
+of everything the code builds, cf. `default_wf`), that can be printed (`toToml c = some l`: no
+integer above `i64::MAX`, which excludes `use_small_heuristics = "Off"`, F8a), whose printed values
+the parser accepts, and in which no width exceeds `max_width` (which excludes F8b): loading the
+printed text as a config file (nightly channel, no command-line override) succeeds and gives every
+printed option — every option outside the generated list `tomlHidden` — its value back.  The hidden
+ones (`verbose`, `file_lines`, the deprecated aliases, …) are not in the text and come back as
+defaults.  Both excluded cases are proved counter-examples below. -/
+theorem toml_roundtrip_partial (c : Config) (l : List (String × Val))
+    (hkeys : c.map (·.1) = optionNames) (hprint : toToml c = some l)
+    (htyped : validParsed l = true)
+    (hwidth : ∀ w ∈ widthKeys, natOf c w ≤ natOf c "max_width") :
+    ∃ c2, roundTrip ⟨true⟩ c = some c2 ∧
+      ∀ k ∈ optionNames, tomlHidden.contains k = false → (getE c2 k).val = (getE c k).val :=
+  roundTrip_values c l hkeys hprint htyped hwidth
+
+/-- Non-vacuity: the default configuration of every released style edition, and one loaded from a
+file with an explicit width, satisfy the four hypotheses; and the round trip is `[]`-different. -/
+example :
+    let c := defaultWithStyleEdition .e2024
+    c.map (·.1) = optionNames ∧ (toToml c).isSome = true ∧
+    ((toToml c).map validParsed) = some true ∧
+    (∀ w ∈ widthKeys, natOf c w ≤ natOf c "max_width") ∧
+    ((roundTrip ⟨true⟩ c).map (valueDiff c)) = some [] := by decide +kernel
+
+example :
+    (fromToml ⟨true⟩ [("max_width", .nat 80), ("chain_width", .nat 500),
+        ("use_small_heuristics", .str "Max"), ("merge_imports", .bool true)] none none none).map
+      (fun c => (c.map (·.1) == optionNames, (toToml c).map validParsed,
+        widthKeys.all (fun w => natOf c w ≤ natOf c "max_width"),
+        (roundTrip ⟨true⟩ c).map (valueDiff c))) = some (true, some true, true, some []) := by
+  decide +kernel
+
+/-- F8a: the configuration under `use_small_heuristics = "Off"` cannot be printed at all. -/
+theorem print_config_off_counterexample :
+    (overrideValue (defaultWithStyleEdition .e2015) "use_small_heuristics" (.str "Off")).map toToml
+      = some none := by decide +kernel
+
+/-- F8b: under the default heuristics with `max_width = 50` the printed text loads back with
+`fn_call_width`, `attr_fn_like_width`, `array_width` and `chain_width` clamped to 50: print / re-parse
+is not the identity (hypothesis `hwidth` of `toml_roundtrip_partial` fails). -/
+theorem toml_roundtrip_counterexample :
+    (overrideValue (defaultWithStyleEdition .e2015) "max_width" (.nat 50)).map
+      (fun c => (roundTrip ⟨true⟩ c).map (valueDiff c))
+      = some (some ["fn_call_width", "attr_fn_like_width", "array_width", "chain_width"]) := by
+  decide +kernel
+
+/-- `to_toml` prints exactly the options outside the hidden list, each once, in declaration order
+(for a configuration holding the options of the table), and fails exactly when one of them holds an
+integer above `i64::MAX`. -/
+theorem print_config_lists_every_option (c : Config) (hkeys : c.map (·.1) = optionNames) :
+    (∀ l, toToml c = some l →
+      l.map (·.1) = optionNames.filter (fun k => !tomlHidden.contains k)) ∧
+    (toToml c = none ↔ ∃ k ∈ optionNames, tomlHidden.contains k = false ∧
+      ∃ n, (getE c k).val = .nat n ∧ i64Max < n) := by
+  have hmapfilter : ∀ (c : Config), ((allOptions c).filter fun kv => !tomlHidden.contains kv.1).map (·.1) =
+      (c.map (·.1)).filter (fun k => !tomlHidden.contains k) := by
+    intro c
+    induction c with
+    | nil => rfl
+    | cons a r ih =>
+      obtain ⟨k, e⟩ := a
+      by_cases h : tomlHidden.contains k = true
+      · simp only [allOptions, List.map_cons, List.filter, h, Bool.not_true] at ih ⊢
+        exact ih
+      · have h' : tomlHidden.contains k = false := by simpa using h
+        simp only [allOptions, List.map_cons, List.filter, h', Bool.not_false] at ih ⊢
+        rw [ih]
+  refine ⟨fun l hl => by rw [toToml_some c l hl, hmapfilter, hkeys], ?_⟩
+  unfold toToml
+  simp only
+  constructor
+  · intro h
+    split at h
+    · cases h
+    · next hall =>
+      rw [List.all_eq_true] at hall
+      have : ∃ kv ∈ (allOptions c).filter (fun kv => !tomlHidden.contains kv.1),
+          ¬ (match kv.2 with | .nat n => decide (n ≤ i64Max) | _ => true) = true := by
+        apply Classical.byContradiction
+        intro hne
+        exact hall fun kv hkv => Classical.byContradiction fun hc => hne ⟨kv, hkv, hc⟩
+      obtain ⟨kv, hkv, hbad⟩ := this
+      obtain ⟨k, v⟩ := kv
+      have hm := List.mem_filter.1 hkv
+      have hkmem : k ∈ optionNames := by
+        rw [← hkeys]
+        obtain ⟨p, hp, hpe⟩ := List.mem_map.1 hm.1
+        cases hpe
+        exact List.mem_map.2 ⟨p, hp, rfl⟩
+      have hh : tomlHidden.contains k = false := by simpa using hm.2
+      have hlk := lookup_printed c hkeys k hkmem
+      rw [hh] at hlk
+      simp only [Bool.false_eq_true, if_false] at hlk
+      -- the printed list has distinct keys, so the member `(k, v)` is what `lookup` finds
+      have hnd : (((allOptions c).filter fun kv => !tomlHidden.contains kv.1).map (·.1)).Nodup := by
+        rw [hmapfilter, hkeys]
+        exact (List.filter_sublist.nodup (by decide +kernel : optionNames.Nodup))
+      have hv : v = (getE c k).val := by
+        have := lookup_of_mem_nodup _ k v hkv hnd
+        rw [hlk] at this
+        exact (Option.some.inj this).symm
+      cases v with
+      | nat n => exact ⟨k, hkmem, hh, n, hv.symm, by simpa using hbad⟩
+      | bool b => simp at hbad
+      | str s => simp at hbad
+  · rintro ⟨k, hk, hh, n, hn, hlt⟩
+    split
+    · next hall =>
+      exfalso
+      rw [List.all_eq_true] at hall
+      have hmem : (k, Val.nat n) ∈ (allOptions c).filter (fun kv => !tomlHidden.contains kv.1) := by
+        have hlk := lookup_printed c hkeys k hk
+        rw [hh, hn] at hlk
+        simp only [Bool.false_eq_true, if_false] at hlk
+        exact mem_of_lookup _ k _ hlk
+      have := hall _ hmem
+      simp only [decide_eq_true_eq] at this
+      omega
+    · rfl
+
+example : (defaultWithStyleEdition .e2015).map (·.1) = optionNames := by decide +kernel
+
+/-! ## Release channel -/
+
+/-- `is_stable_option_and_value`: everything is accepted on the nightly channel; on the stable
+channel exactly the stable options with a stable variant. -/
+theorem is_stable_option_and_value_spec (env : Env) (k : String) (v : Val) :
+    isStableOptionAndValue env k v = (env.nightly || (stableOf k && variantStable k v)) := by
+  obtain ⟨n⟩ := env
+  unfold isStableOptionAndValue
+  cases n <;> cases stableOf k <;> cases variantStable k v <;> rfl
+
+/-- On the stable channel a config file cannot change an unstable option: whatever the file says,
+every option marked unstable in the generated table keeps the entry of the default configuration
+(value and provenance) after `fill_from_parsed_config` — including the successors
+`imports_granularity` / `show_parse_errors` of the (unstable) aliases.  (`--config` is not gated:
+`same_value_stable_channel_counterexample`.) -/
+theorem stable_channel_gating (se : StyleEdition) (parsed : List (String × Val)) (k : String)
+    (hk : stableOf k = false) :
+    getE (fillFromParsedConfig ⟨false⟩ (defaultWithStyleEdition se) parsed) k =
+      getE (defaultWithStyleEdition se) k := by
+  have hwidth : ∀ w ∈ widthKeys, stableOf w = true := by decide +kernel
+  have hkw : k ∉ widthKeys := fun h => by rw [hwidth k h] at hk; cases hk
+  have hal : stableOf "merge_imports" = false ∧ stableOf "hide_parse_errors" = false ∧
+      stableOf "fn_args_layout" = true ∧ stableOf "fn_params_layout" = true := by decide +kernel
+  have hfold : ∀ a, stableOf a = false →
+      getE (optionNames.foldl (fillStore ⟨false⟩ parsed) (defaultWithStyleEdition se)) a =
+        getE (defaultWithStyleEdition se) a := by
+    intro a ha
+    rw [getE_fillFold]
+    split
+    · unfold fillEntry
+      cases parsed.lookup a with
+      | none => rfl
+      | some v =>
+        have : isStableOptionAndValue ⟨false⟩ a v = false := by
+          rw [is_stable_option_and_value_spec, ha]; rfl
+        simp [this]
+    · rfl
+  have hws : ∀ a, stableOf a = false →
+      wasSet (setHeuristics (optionNames.foldl (fillStore ⟨false⟩ parsed)
+        (defaultWithStyleEdition se))) a = false := by
+    intro a ha
+    rw [wasSet_setHeuristics]
+    unfold wasSet
+    rw [hfold a ha]
+    exact wasSet_default se a
+  unfold fillFromParsedConfig setVersion
+  simp only
+  rw [setMergeImports_eq, setAlias_of_not_set _ _ _ _ (hws _ hal.1)]
+  have hws2 : wasSet (setFnArgsLayout (setHeuristics (optionNames.foldl (fillStore ⟨false⟩ parsed)
+      (defaultWithStyleEdition se)))) "hide_parse_errors" = false := by
+    rw [setFnArgsLayout_eq, wasSet_setAlias]; exact hws _ hal.2.1
+  rw [setHideParseErrors_eq, setAlias_of_not_set _ _ _ _ hws2]
+  have hk1 : k ∉ ["fn_args_layout", "fn_params_layout"] := by
+    intro h
+    simp only [List.mem_cons, List.not_mem_nil, or_false] at h
+    rcases h with rfl | rfl
+    · rw [hal.2.2.1] at hk; cases hk
+    · rw [hal.2.2.2] at hk; cases hk
+  rw [local_setFnArgsLayout.1 _ k hk1, getE_setHeuristics_of_not_width _ _ hkw, hfold k hk]
+
+example : stableOf "brace_style" = false ∧
+    (getE (fillFromParsedConfig ⟨false⟩ (defaultWithStyleEdition .e2015)
+      [("brace_style", .str "AlwaysNextLine"), ("merge_imports", .bool true), ("max_width", .nat 80)])
+      "max_width").val = .nat 80 := by decide +kernel
+
+/-- A quirk of the stable channel: `style_edition = "2027"` (an unstable variant) in a file is not
+stored (`was_set` stays false) but still SELECTS the defaults — `to_parsed_config` looks at the
+parsed value before `is_stable_option_and_value` is asked —, so the configuration gets the 2024
+defaults (`style_edition = 2024`, `version = Two`). -/
+theorem unstable_variant_still_selects_defaults :
+    (fromToml ⟨false⟩ [("style_edition", .str "2027")] none none none).map
+      (fun c => ((getE c "style_edition").val, wasSet c "style_edition", (getE c "version").val))
+      = some (.str "2024", false, .str "Two") := by decide +kernel
 
 end RF.Props.C14
